@@ -107,8 +107,18 @@ def _d2(chk, fb):
             rs = [c for c in f.calls() if c["callee"]["name"] == "resize" and "obj" in c]
             o = [render(f.args(c)[0]) for c in rs if render(f.obj(c)) == "m_"]
             inn = [render(f.args(c)[0]) for c in rs if render(f.obj(c)).startswith("m_[")]
+            # 'for (auto& row : m_) row.resize(n)' sizes the inner level as well
+            for c in rs:
+                ob = strip(f.obj(c))
+                if ob["k"] == "DeclRefExpr":
+                    lp = f.enclosing(c, ("CXXForRangeStmt",))
+                    ri = (f.nodes.get(lp["rangeinit"]) if isinstance(lp.get("rangeinit"), int) else lp.get("rangeinit")) if lp else None
+                    if ri is not None and render(ri).replace("this.", "") == "m_":
+                        inn.append(render(f.args(c)[0]))
             if o == [pn[k]] and inn and all(x == pn[1 - k] for x in inn):
                 chk.proved("D2", f.key, "layout-resize", f.loc(), "outer level sized by %s, inner by %s" % (pn[k], pn[1 - k]))
+            elif not o or not inn or any(x not in pn for x in o + inn):
+                chk.unknown("D2", f.key, "layout-resize", f.loc(), "resize not in a recognised form (outer %s, inner %s)" % (o, inn))
             else:
                 chk.refuted("D2", f.key, "layout-resize", f.loc(), "%s::resize sizes the outer level with %s and the inner with %s; the class reports m_.size() as %s, so it should be %s / %s" % (
                     cls.split("::")[-1], o, inn, outer[0], pn[k], pn[1 - k]), witness={"shape": "2x3"})
